@@ -2231,6 +2231,17 @@ Proof.
 Qed.
 
 (* ================= 5. a closed instance (non-vacuity) ================= *)
+(* the argument hypothesis, decidably *)
+Definition wfm_b (A : alg) {R} (x : mv R) : bool :=
+  znd (keys x) && forallb (fun k => zin k (canon_keys A)) (keys x).
+Lemma wfm_b_sound A R (x : mv R) : wfm_b A x = true -> wfm R A x.
+Proof.
+  unfold wfm_b. intros H. apply andb_true_iff in H. destruct H as [H1 H2]. split; [apply znd_NoDup; exact H1|].
+  intros k Hk. rewrite forallb_forall in H2. apply zin_true_iff. apply H2. exact Hk.
+Qed.
+Lemma Forall_wfm_b A R (xs : list (mv R)) : forallb (wfm_b A) xs = true -> Forall (wfm R A) xs.
+Proof. intros H. apply Forall_forall. intros x Hx. apply wfm_b_sound. rewrite forallb_forall in H. apply H. exact Hx. Qed.
+
 Section ExampleZ.
   Local Open Scope Z_scope.
   Definition exA : alg := mk_default [1; 1] 1 false.
@@ -2250,8 +2261,258 @@ Section ExampleZ.
       [|vm_compute in Hp; discriminate].
     destruct (tape_agrees Z 0 1 Z.add Z.mul Z.sub Z.opp InitialRing.Zth exA Hwf no_ext (no_ext_ok Z exA) exbodies 40 1
                 (nth 1 exbodies (ENum 0)) exargs v) as [m [Hm [Hpm _]]]; try (vm_compute; reflexivity).
-    - repeat constructor; cbn; intuition (try discriminate; try lia; auto).
+    - apply Forall_wfm_b. vm_compute. reflexivity.
     - exact Hp.
     - exists v, m. repeat split; try assumption. intros E. subst m. vm_compute in Hm. discriminate.
   Qed.
 End ExampleZ.
+
+(* ================= 6. the hand-modelled source, pinned ================= *)
+(* Model/Tape.v was written against exactly this text of the members it models by hand (printed by ast.unparse,
+   docstrings and comments dropped; Gen/Dunder.v is regenerated from /repo on every check).  Any edit of these
+   functions makes the lemmas below fail, so the model cannot silently fall behind the code. *)
+Definition pinned_mv_defs : list (string * string) := [
+  ("keys", "def keys(self):
+    return self._keys");
+  ("values", "def values(self):
+    return self._values");
+  ("fromkeysvalues", "@classmethod
+def fromkeysvalues(cls, algebra, keys, values):
+    obj = object.__new__(cls)
+    obj.algebra = algebra
+    obj._values = values
+    obj._keys = keys
+    return obj");
+  ("grade", "def grade(self, *grades):
+    if len(grades) == 1 and isinstance(grades[0], tuple):
+        grades = grades[0]
+    vals = {k: getattr(self, self.algebra.bin2canon[k]) for k in self.algebra.indices_for_grades[grades] if k in self.keys()}
+    return self.fromkeysvalues(self.algebra, tuple(vals.keys()), list(vals.values()))");
+  ("__getattr__", "def __getattr__(self, basis_blade):
+    if basis_blade == '__array_priority__':
+        return 0
+    if not re.match('^e[0-9a-fA-F]*$', basis_blade):
+        raise AttributeError(f'{self.__class__.__name__} object has no attribute or basis blade {basis_blade}')
+    basis_blade, swaps = self.algebra._blade2canon(basis_blade)
+    if basis_blade not in self.algebra.canon2bin:
+        return 0
+    try:
+        idx = self.keys().index(self.algebra.canon2bin[basis_blade])
+    except ValueError:
+        return 0
+    return self._values[idx] if swaps % 2 == 0 else -self._values[idx]");
+  ("__pow__", "def __pow__(self, power, modulo=None):
+    if power == 0:
+        return self.algebra.scalar((1,))
+    elif power < 0:
+        res = x = self.inv()
+        power *= -1
+    else:
+        res = x = self
+    if power == 0.5:
+        return res.sqrt()
+    for i in range(1, power):
+        res = res.gp(x)
+    return res");
+  ("norm", "def norm(self):
+    normsq = self.normsq()
+    return normsq.sqrt()");
+  ("normalized", "def normalized(self):
+    return self / self.norm()");
+  ("dual", "def dual(self, kind='auto'):
+    if kind == 'polarity' or (kind == 'auto' and self.algebra.r == 0):
+        return self.polarity()
+    elif kind == 'hodge' or (kind == 'auto' and self.algebra.r == 1):
+        return self.hodge()
+    elif kind == 'auto':
+        raise Exception('Cannot select a suitable dual in auto mode for this algebra.')
+    else:
+        raise ValueError(f'No dual found for kind={kind}.')");
+  ("undual", "def undual(self, kind='auto'):
+    if kind == 'polarity' or (kind == 'auto' and self.algebra.r == 0):
+        return self.unpolarity()
+    elif kind == 'hodge' or (kind == 'auto' and self.algebra.r == 1):
+        return self.unhodge()
+    elif kind == 'auto':
+        raise Exception('Cannot select a suitable undual in auto mode for this algebra.')
+    else:
+        raise ValueError(f'No undual found for kind={kind}.')")
+].
+Lemma mv_defs_pinned : mv_defs = pinned_mv_defs.
+Proof. reflexivity. Qed.
+Definition pinned_tape_defs : list (string * string) := [
+  ("__new__", "def __new__(cls, algebra, expr, keys):
+    obj = object.__new__(cls)
+    obj.algebra = algebra
+    obj.expr = expr
+    obj._keys = keys
+    return obj");
+  ("keys", "def keys(self):
+    return self._keys");
+  ("__getattr__", "def __getattr__(self, basis_blade):
+    if not re.match('^e[0-9a-fA-F]*$', basis_blade):
+        raise AttributeError(f'{self.__class__.__name__} object has no attribute or basis blade {basis_blade}')
+    basis_blade, swaps = self.algebra._blade2canon(basis_blade)
+    if basis_blade not in self.algebra.canon2bin:
+        return self.__class__(algebra=self.algebra, expr=f'(0,)', keys=(0,))
+    try:
+        idx = self.keys().index(self.algebra.canon2bin[basis_blade])
+    except ValueError:
+        return self.__class__(algebra=self.algebra, expr=f'(0,)', keys=(0,))
+    else:
+        sign = '-' if swaps % 2 else ''
+        return self.__class__(algebra=self.algebra, expr=f'({sign}{self.expr}[{idx}],)', keys=(0,))");
+  ("grade", "def grade(self, *grades):
+    if len(grades) == 1 and isinstance(grades[0], tuple):
+        grades = grades[0]
+    basis_blades = self.algebra.indices_for_grades[grades]
+    indices_keys = [(idx, k) for idx, k in enumerate(self.keys()) if k in basis_blades]
+    indices, keys = zip(*indices_keys) if indices_keys else (tuple(), tuple())
+    expr = f'[{self.expr}[idx] for idx in {indices}]'
+    return self.__class__(algebra=self.algebra, expr=expr, keys=keys)");
+  ("binary_operator", "def binary_operator(self, other, operator: str):
+    if not isinstance(other, self.__class__):
+        keys_out, func = getattr(self.algebra, operator)[self.keys(), (0,)]
+        expr = f'{func.__name__}({self.expr}, ({other},))'
+    else:
+        keys_out, func = getattr(self.algebra, operator)[self.keys(), other.keys()]
+        expr = f'{func.__name__}({self.expr}, {other.expr})'
+    return self.__class__(algebra=self.algebra, expr=expr, keys=keys_out)");
+  ("unary_operator", "def unary_operator(self, operator: str):
+    keys_out, func = getattr(self.algebra, operator)[self.keys()]
+    expr = f'{func.__name__}({self.expr})'
+    return self.__class__(algebra=self.algebra, expr=expr, keys=keys_out)");
+  ("__rsub__", "def __rsub__(self, other):
+    return other + -self");
+  ("__rmul__", "def __rmul__(self, other):
+    return other.gp(self) if isinstance(other, self.__class__) else self.gp(other)");
+  ("__rxor__", "def __rxor__(self, other):
+    return other.op(self) if isinstance(other, self.__class__) else self.op(other)");
+  ("__pow__", "def __pow__(self, power, modulo=None):
+    if power == 0:
+        return self.__class__(self.algebra, expr='(1,)', keys=(0,))
+    if power < 0:
+        res = x = self.inv()
+        power *= -1
+    else:
+        res = x = self
+    for i in range(1, power):
+        res = res.gp(x)
+    return res");
+  ("dual", "def dual(self, kind='auto'):
+    if kind == 'polarity' or (kind == 'auto' and self.algebra.r == 0):
+        return self.polarity()
+    elif kind == 'hodge' or (kind == 'auto' and self.algebra.r == 1):
+        return self.hodge()
+    elif kind == 'auto':
+        raise Exception('Cannot select a suitable dual in auto mode for this algebra.')
+    else:
+        raise ValueError(f'No dual found for kind={kind}.')");
+  ("undual", "def undual(self, kind='auto'):
+    if kind == 'polarity' or (kind == 'auto' and self.algebra.r == 0):
+        return self.unpolarity()
+    elif kind == 'hodge' or (kind == 'auto' and self.algebra.r == 1):
+        return self.unhodge()
+    elif kind == 'auto':
+        raise Exception('Cannot select a suitable undual in auto mode for this algebra.')
+    else:
+        raise ValueError(f'No undual found for kind={kind}.')");
+  ("norm", "def norm(self):
+    normsq = self.normsq()
+    return normsq.sqrt()");
+  ("normalized", "def normalized(self):
+    return self / self.norm()")
+].
+Lemma tape_defs_pinned : tape_defs = pinned_tape_defs.
+Proof. reflexivity. Qed.
+Definition pinned_glue_defs : list (string * string) := [
+  ("OperatorDict._call_binary", "def _call_binary(self, mv1, mv2):
+    while isinstance(mv1, Callable) and (not isinstance(mv1, MultiVector)):
+        mv1 = mv1()
+    while isinstance(mv2, Callable) and (not isinstance(mv2, MultiVector)):
+        mv2 = mv2()
+    if isinstance(mv2, (tuple, list)):
+        return type(mv2)((self._call_binary(mv1, mv) for mv in mv2))
+    if isinstance(mv1, (tuple, list)):
+        return type(mv1)((self._call_binary(mv, mv2) for mv in mv1))
+    mv1 = mv1 if isinstance(mv1, MultiVector) else MultiVector.fromkeysvalues(self.algebra, (0,), [mv1])
+    mv2 = mv2 if isinstance(mv2, MultiVector) else MultiVector.fromkeysvalues(self.algebra, (0,), [mv2])
+    if not (mv1.algebra is mv2.algebra or mv1.algebra == mv2.algebra):
+        raise AlgebraError(""Cannot multiply elements of different algebra's."")
+    keys_out, func = self[mv1.keys(), mv2.keys()]
+    issymbolic = mv1.issymbolic or mv2.issymbolic
+    if issymbolic or not mv1.algebra.wrapper:
+        values_out = func(mv1.values(), mv2.values())
+    else:
+        values_out = self.algebra.numspace[func.__name__](mv1.values(), mv2.values())
+    if issymbolic and self.algebra.simp_func:
+        keys_out, values_out = self.filter(keys_out, values_out)
+    return MultiVector.fromkeysvalues(self.algebra, keys=keys_out, values=values_out)");
+  ("UnaryOperatorDict.__call__", "def __call__(self, mv):
+    keys_out, func = self[mv.keys()]
+    issymbolic = mv.issymbolic
+    if issymbolic or not mv.algebra.wrapper:
+        values_out = func(mv.values())
+    else:
+        values_out = self.algebra.numspace[func.__name__](mv.values())
+    if issymbolic and self.algebra.simp_func:
+        keys_out, values_out = self.filter(keys_out, values_out)
+    return MultiVector.fromkeysvalues(self.algebra, keys=keys_out, values=values_out)");
+  ("Registry.__getitem__", "def __getitem__(self, keys_in: Tuple[Tuple[int]]):
+    if keys_in not in self.operator_dict:
+        tapes = [TapeRecorder(algebra=self.algebra, expr=name, keys=keys) for name, keys in zip(string.ascii_lowercase, keys_in)]
+        keys_out, func = do_compile(self.codegen, *tapes)
+        self._store(keys_in, keys_out, func)
+    return self.operator_dict[keys_in]");
+  ("Registry.__call__", "def __call__(self, *mvs):
+    mvs = list(mvs)
+    for i in range(len(mvs)):
+        mv = mvs[i]
+        while isinstance(mv, Callable) and (not isinstance(mv, MultiVector)):
+            mv = mv()
+        mvs[i] = mv
+    if any((isinstance(mv, TapeRecorder) for mv in mvs)):
+        mvs = [mv if isinstance(mv, TapeRecorder) else TapeRecorder(self.algebra, expr=f'({mv},)', keys=(0,)) for mv in mvs]
+        keys_in = tuple((mv.keys() for mv in mvs))
+        keys_out, func = self[keys_in]
+        expr = f'{func.__name__}({', '.join((mv.expr for mv in mvs))})'
+        return TapeRecorder(self.algebra, keys=keys_out, expr=expr)
+    mvs = [mv if isinstance(mv, MultiVector) else MultiVector.fromkeysvalues(self.algebra, (0,), (mv,)) for mv in mvs]
+    if any((mvs[0].algebra != mv.algebra for mv in mvs[1:])):
+        raise AlgebraError(""Cannot multiply elements of different algebra's."")
+    keys_in = tuple((mv.keys() for mv in mvs))
+    values_in = tuple((mv.values() for mv in mvs))
+    keys_out, func = self[keys_in]
+    if not mvs[0].algebra.wrapper:
+        values_out = func(*values_in)
+    else:
+        values_out = self.algebra.numspace[func.__name__](*values_in)
+    return MultiVector.fromkeysvalues(self.algebra, keys=keys_out, values=values_out)");
+  ("OperatorDict._store", "def _store(self, keys_in, keys_out, func):
+    wrapped = self.algebra.wrapper(func) if self.algebra.wrapper else func
+    while self.algebra.numspace.setdefault(func.__name__, wrapped) is not wrapped:
+        func.__name__ += '_'
+    self.operator_dict[keys_in] = (keys_out, func)");
+  ("do_compile", "def do_compile(codegen, *tapes):
+    algebra = tapes[0].algebra
+    namespace = algebra.numspace
+    res = codegen(*tapes)
+    funcname = f'{_identifier(codegen.__name__)}_' + '_x_'.join((f'{tape.type_number}' for tape in tapes))
+    funcstr = f'def {funcname}({', '.join((t.expr for t in tapes))}):'
+    if not isinstance(res, str):
+        funcstr += f'    return {res.expr}'
+    else:
+        funcstr += f'    return ({res},)'
+    funclocals = {}
+    filename = f'<{funcname}>'
+    c = compile(funcstr, filename, 'exec')
+    exec(c, namespace, funclocals)
+    linecache.cache[filename] = (len(funcstr), None, funcstr.splitlines(True), filename)
+    func = funclocals[funcname]
+    return CodegenOutput(res.keys() if not isinstance(res, str) else (0,), func)")
+].
+Lemma glue_defs_pinned : glue_defs = pinned_glue_defs.
+Proof. reflexivity. Qed.
+Definition pinned_tape_names : list string := ["__new__"; "keys"; "type_number"; "__getattr__"; "grade"; "__str__"; "binary_operator"; "unary_operator"; "gp"; "__mul__"; "sw"; "__rshift__"; "cp"; "acp"; "ip"; "__or__"; "sp"; "lc"; "rc"; "op"; "__xor__"; "rp"; "__and__"; "proj"; "__matmul__"; "add"; "__add__"; "__radd__"; "sub"; "__sub__"; "__rsub__"; "__rmul__"; "__rxor__"; "__truediv__"; "div"; "__pow__"; "inv"; "neg"; "__neg__"; "reverse"; "__invert__"; "involute"; "conjugate"; "sqrt"; "polarity"; "unpolarity"; "hodge"; "unhodge"; "normsq"; "outerexp"; "outersin"; "outercos"; "outertan"; "dual"; "undual"; "norm"; "normalized"].
+Lemma tape_names_pinned : tape_names = pinned_tape_names.
+Proof. reflexivity. Qed.
